@@ -18,8 +18,9 @@ META = {
             'CONN (connection lost); outcome judged against the fault-free '
             'twin run: (i) 2xx and final tables equal to the twin\'s, or '
             '(ii) well-formed JSON error and tables equal to the start; in '
-            'the required-retry zones only (i); thorough adds pairs of '
-            'faults; distinct = (request, statement kind, fault kind, '
+            'the required-retry zones only (i); plus pairs of faults in one '
+            'request (80 per request, thorough 1500); distinct = (request, '
+            'statement kind, fault kind, '
             'outcome class)',
     'floors': {'injections': 500, 'required_retry_injections': 20,
                'requests': 10},
@@ -27,7 +28,7 @@ META = {
                     'emulated (DLR = ROLLBACK; BEGIN on the raw connection '
                     'before raising DBDeadlock)',
                     'oslo_db retry sleeps replaced by no-ops (virtual time)',
-                    'one fault per run (pairs in the thorough tier)'],
+                    'one or two faults per run'],
     'shard_timeout': 3000,
 }
 
@@ -41,10 +42,11 @@ def plan(tier, seed, scale):
     for i in range(n):
         shards.append({'seed': seed, 'slice': i, 'of': n, 'tier': tier,
                        'hashseed': 0, 'pairs': False})
-    if tier == 'thorough':
-        for i in range(n):
-            shards.append({'seed': seed, 'slice': i, 'of': n, 'tier': tier,
-                           'hashseed': 0, 'pairs': True})
+    # pairs of faults in one request: a sample in the quick tier
+    for i in range(n):
+        shards.append({'seed': seed, 'slice': i, 'of': n, 'tier': tier,
+                       'hashseed': 0, 'pairs': True,
+                       'pairs_max': 1500 if tier == 'thorough' else 80})
     # accepted write requests drawn from random histories on random states
     n_rand = int((16 if tier == 'quick' else 480) * scale)
     per = 2 if tier == 'quick' else 30
@@ -163,7 +165,7 @@ def run_shard(spec, res):
                         pairs.append(((k1, rng.choice(['DL', 'DLR', 'ERR'])),
                                       (k2, rng.choice(['DL', 'DLR', 'ERR']))))
                 rng.shuffle(pairs)
-                jobs = pairs[:1500]
+                jobs = pairs[:spec.get('pairs_max', 1500)]
             for job in jobs:
                 prepare(name)
                 injs = [faults.Injector(k, kind, watch) for k, kind in job]
